@@ -2070,9 +2070,11 @@ fn compress_normal(d: &mut CompressorOxide, callback: &mut CallbackOxide) -> boo
             }
         } else {
             // Try to find a match for the bytes at the current position.
+            // Never reach further back than the window size declared in the zlib header.
+            let max_dist = cmp::min(d.dict.size, 1 << cmp::max(d.params.window_bits_max, 8));
             let dist_len = d.dict.find_match(
                 lookahead_pos,
-                d.dict.size,
+                max_dist,
                 lookahead_size as u32,
                 cur_match_dist,
                 cur_match_len,
@@ -2215,7 +2217,9 @@ fn compress_fast(d: &mut CompressorOxide, callback: &mut CallbackOxide) -> bool 
             d.dict.b.hash[hash as usize] = lookahead_pos as u16;
 
             let mut cur_match_dist = (lookahead_pos - probe_pos) as u16;
-            if cur_match_dist as usize <= d.dict.size {
+            // Never reach further back than the window size declared in the zlib header.
+            let max_dist = cmp::min(d.dict.size, 1 << cmp::max(d.params.window_bits_max, 8));
+            if cur_match_dist as usize <= max_dist {
                 probe_pos &= LZ_DICT_SIZE_MASK;
 
                 let trigram = d.dict.read_unaligned_u32(probe_pos) & 0xFF_FFFF;
